@@ -138,6 +138,7 @@ bool fd_writable(int fd) {
   case FD_DGRAM: return true;
   case FD_STREAM:
     if (f->connecting) return f->conn_done;
+    if (f->st && K().hooks.write_blocked && !f->st->rst[f->side] && K().hooks.write_blocked(f->st, f->side)) return false;
     return f->st != nullptr;
   default: return false;
   }
@@ -575,6 +576,7 @@ static ssize_t stream_send(Fd *f, const void *buf, size_t len) {
   if (s->rst[side]) { errno = ECONNRESET; return -1; }
   if (s->fd[1 - side] == -2 && s->fin[side]) { /* peer gone */ }
   size_t n = len;
+  if (K().hooks.write_blocked && len > 0 && K().hooks.write_blocked(s, side)) { errno = EAGAIN; return -1; }
   if (K().hooks.write_cut) {
     size_t c = K().hooks.write_cut(s, side, len);
     if (c == 0 && len > 0) { errno = EAGAIN; return -1; }
